@@ -73,6 +73,7 @@ macro_rules! derived_instance {
         #[kani::proof]
         #[kani::unwind(12)]
         #[kani::stub(verif_support::reexp::catch_unwind, verif_support::stub_cu)]
+        #[kani::stub(crate::parameters::file_spec::TimestampCfg::get_timestamp, crate::parameters::file_spec::verif_harness::cut_get_timestamp)]
         #[kani::stub(std::fs::create_dir_all, st_create_dir_all)]
         #[kani::stub(std::fs::metadata, st_metadata)]
         #[kani::stub(std::fs::Metadata::is_dir, st_md_is_dir)]
@@ -91,3 +92,7 @@ derived_instance!(c16_try_from_nested, "d/n.l", b"d/n.l", b"d/n.l", true);
 // @verif prop=C16 tier=thorough timeout=600 bounds=path"n"(no-extension),path".n"(dot-file)
 // ... without extension.
 derived_instance!(c16_try_from_no_extension, "n", b"n", b"./n", false);
+// @verif prop=C16 tier=probe timeout=600 bounds=path"d/n."(name-ending-in-a-dot:-present-but-empty-suffix)
+// BUDGET GATE: 201 checks undetermined after 285 s (Kani reports failure without a failed check); the empty-suffix clause is decided on as_pathbuf directly (c16_as_pathbuf_empty_suffix). Not registered.
+// ... derived from a path whose file name ends in a dot (an empty suffix is still a suffix): exactly that path, dot included - so that naming and the listing (which expects the empty extension) agree.
+derived_instance!(c16_try_from_trailing_dot, "d/n.", b"d/n.", b"d/n.", true);
